@@ -1081,6 +1081,13 @@ type responseWriter struct {
 }
 
 func (w *responseWriter) Header() http.Header {
+	if w.endWritten {
+		// The response has ended (possibly with an error that this writer
+		// reported itself). Whatever the handler still sets - typically its
+		// own trailers - must not reach the client, let alone replace the
+		// end that was written: it goes to a map that is never sent.
+		return make(http.Header)
+	}
 	return w.delegate.Header()
 }
 
